@@ -230,6 +230,19 @@ func runSysRace(x *X) {
 	x.Sample["config"] = fmt.Sprintf("strategy=%s backends=%d passive=%v active=%v breaker=%v limiter=%v wspool=%v plugins=%d goroutines=%d ops=%v (schedule: Go runtime, not seed-decided)", o.strategy, o.nBackends, o.passive, o.active, o.breaker != nil, o.limiter != nil, o.wsPool, len(o.plugins), nG, descr)
 	x.Logf("sysrace %s", x.Sample["config"])
 	x.Nontrivial = true
+	// in a third of the runs the shutdown starts while traffic, admin calls and readers are still
+	// at work (the admin and metrics servers keep serving during a real shutdown as well)
+	var earlyDone chan struct{}
+	if c.Intn(3, "early-shutdown") == 0 {
+		after := time.Duration(20+c.Intn(900, "shutdown-after-ms")) * time.Millisecond
+		earlyDone = make(chan struct{})
+		go func() {
+			time.Sleep(after)
+			shutdownGracefully(env.srv, env.lb, 5*time.Second)
+			close(earlyDone)
+		}()
+		x.Fault("shutdown-during-traffic")
+	}
 	finished := make(chan struct{})
 	go func() { wg.Wait(); close(finished) }()
 	stuck := false
@@ -253,7 +266,11 @@ func runSysRace(x *X) {
 	} else {
 		// shutdown races with whatever is still winding down
 		done := make(chan struct{})
-		go func() { shutdownGracefully(env.srv, env.lb, 5*time.Second); close(done) }()
+		if earlyDone != nil {
+			done = earlyDone
+		} else {
+			go func() { shutdownGracefully(env.srv, env.lb, 5*time.Second); close(done) }()
+		}
 		select {
 		case <-done:
 		case <-time.After(time.Minute):
